@@ -17,6 +17,9 @@ import time
 VERIF = os.path.dirname(os.path.dirname(os.path.abspath(__file__)))
 PY = "/venv/bin/python"
 ALL = ["C01", "C02", "C04", "C07", "C10", "C12", "C13", "C16", "C19"]
+# checks whose system under simulation shares code with the property's anchors (cheaper than the full matrix)
+RELATED = {"C01": ["C01", "C07", "C02"], "C02": ["C02", "C04", "C10"], "C04": ["C04", "C12", "C02", "C19"], "C07": ["C07", "C01", "C02"],
+           "C10": ["C10", "C16", "C02"], "C12": ["C12", "C04", "C13"], "C13": ["C13", "C12", "C01"], "C16": ["C16", "C10"], "C19": ["C19", "C04"]}
 
 
 def sh(cmd, cwd=None, env=None, timeout=3000):
@@ -26,6 +29,7 @@ def sh(cmd, cwd=None, env=None, timeout=3000):
 
 def main(argv):
     all_checks = "--all-checks" in argv
+    related = "--related" in argv
     tier = "quick"
     if "--tier" in argv:
         tier = argv[argv.index("--tier") + 1]
@@ -59,7 +63,7 @@ def main(argv):
                 res["demo_on_clean_rc"] = rc_c
             env = dict(os.environ)
             env.update({"GRAPHIQ_ROOT": wt, "VERIF_EVIDENCE_DIR": f"/var/tmp/seeded_ev_{os.getpid()}", "VERIF_REPLAY_DIR": f"/var/tmp/seeded_rp_{os.getpid()}", "VERIF_SHRINK_S": "20"})
-            checks = ALL if all_checks else [meta["property"]]
+            checks = ALL if all_checks else (RELATED[meta["property"]] if related else [meta["property"]])
             res["checks"] = {}
             for pid in checks:
                 t0 = time.time()
@@ -75,7 +79,7 @@ def main(argv):
             shutil.rmtree(wt, ignore_errors=True)
     shutil.rmtree(f"/var/tmp/seeded_ev_{os.getpid()}", ignore_errors=True)
     shutil.rmtree(f"/var/tmp/seeded_rp_{os.getpid()}", ignore_errors=True)
-    outp = os.path.join(seeded, f"RESULTS_{tier}{'_all' if all_checks else ''}.json")
+    outp = os.path.join(seeded, f"RESULTS_{tier}{'_all' if all_checks else ('_related' if related else '')}.json")
     old = {}
     if os.path.exists(outp):
         old = json.load(open(outp))
